@@ -392,6 +392,27 @@ def run(ctx: Context, rep) -> None:
             return bounded(e.left)
         return False
 
+    # the number of shards an interleaving holds open is the configured
+    # parallelism in every interface (not the shuffle size, not the number
+    # of shards)
+    n_rr = 0
+    for q_ in C.INTERFACES:
+        f_ = ctx.fn(q_)
+        for c_ in f_.calls():
+            if not ctx.is_call(f_, c_, "itertools.round_robin",
+                               "itertools.round_robin_async"):
+                continue
+            n_rr += 1
+            a_ = ctx.arg(c_, 1, "buffer_size")
+            rep.ob("C14.config", a_ is not None and bounded(a_),
+                   loc=f_.loc(c_), where=f_.qualname,
+                   construct="round_robin(buffer_size=" + (
+                       short(a_, 40) if a_ is not None else "<default>") + ")",
+                   message="the number of shards held open by the "
+                   "interleaving is bounded by the caller's file_parallelism")
+    rep.ob("C14.config", n_rr >= 2, loc=conc.loc(), where="interfaces",
+           construct=f"{n_rr} interleaving call(s)",
+           message="interleaving calls of the interfaces inspected")
     n_par = 0
     for fn_ in ctx.repo.all_functions():
         if isinstance(fn_.node, ast.Lambda) or PARAM_ not in [
